@@ -233,6 +233,7 @@ type World struct {
 	rewardHeights []uint64 // heights of blocks whose coinbase carries a standard payload and pays staking rewards
 	proposalHeights []uint64 // heights of blocks with a punishment proposal and a ban list
 	lag *lagInfo // set by scenario lagging-reorg
+	stopped bool // scenario stopped: WalletManager.Stop has run
 }
 
 func scratchRoot() string {
@@ -327,7 +328,9 @@ func (wd *World) close() {
 	done := make(chan struct{})
 	go func() {
 		defer func() { recover() }()
-		wd.w.Stop()
+		if !wd.stopped {
+			wd.w.Stop()
+		}
 		close(done)
 	}()
 	select {
